@@ -144,6 +144,13 @@ def run(ctx):
     ctx.analysed['bodies'].add(P.path)
     wrapper.check_parser_entry(ctx, f, P, 'lber::parse::parse_tag', 'G3')
 
+    # ---- G8 between the socket and the frame decoder nobody but the frame decoder removes octets (rules/readbuf.py): the census of
+    # every site that touches the framed transport; what is done through Framed::read_buffer_mut on the enumerated paths; the
+    # re-framing of the TLS upgrade is judged by C17 W3 / C01 R16 (what the new transport is built from) and only listed here
+    import readbuf
+    from props import C17
+    readbuf.check(ctx, f, 'G8', upgrade_site=C17.NT)
+
     # ---- G4 no cross-call state
     codec = f.items.get('ldap3::protocol::LdapCodec')
     fields = [fl['name'] for v in codec['variants'] for fl in v['fields']] if codec else None
